@@ -27,7 +27,7 @@ RULE = (
     "cases = Boolean expression recipes (<= ~9 connectives) over a generated world with planted constant-only atoms (1<=2, 3<2, o==o); evaluations = "
     "(expression, converter) pairs; distinct_nontrivial = distinct expressions containing a constant-only atom or an Iff/Implies. Thorough tier only: one run "
     "of unified_planning/test under M-dnf; one evaluation = one distinct converter call judged (suite:M-dnf:judged); witnesses carry the test id (\"suite\": true) "
-    "and are replayed by re-running that test file under the monitor; inconclusive if the suite ran and fewer than 100 calls were judged."
+    "and are replayed by re-running that test file under the monitor; inconclusive if the suite ran and fewer than 150 calls were judged."
 )
 ASSUMPTIONS = ["arithmetic atoms are interpreted arithmetically (not as independent propositional atoms)"]
 BOUNDS = {"quick": dict(n=600, per=6, cap=64), "thorough": dict(n=48000, per=10, cap=128)}
@@ -240,5 +240,5 @@ def thresholds(m):
             out.append(f"{k} observed {c.get(k, 0)} < {n}")
     from vk.mon import suite as _suite
 
-    out.extend(_suite.thresholds(c, SUITE[1], 100))
+    out.extend(_suite.thresholds(c, SUITE[1], 150))
     return out
